@@ -47,6 +47,8 @@ struct Env {
     globals: Vec<GlobalId>,
     helper: FunctionId,
     multi_ty: walrus::TypeId,
+    /// the same signature as a sequence type, obtained either from the id or through `InstrSeqType::new`
+    multi_sty: InstrSeqType,
 }
 
 fn gen_nodes(rng: &mut Rng, depth: usize, enclosing: usize, budget: &mut i64, env_locals: &[(usize, ValType)], nglobals: usize) -> Vec<Node> {
@@ -373,7 +375,7 @@ fn build_nodes(b: &mut InstrSeqBuilder, nodes: &[Node], enclosing: &mut Vec<Inst
                 let sty: InstrSeqType = match ty {
                     Ty::Empty => None.into(),
                     Ty::I32 => ValType::I32.into(),
-                    Ty::Multi => env.multi_ty.into(),
+                    Ty::Multi => env.multi_sty,
                 };
                 if *ty == Ty::Multi {
                     push_instr(b, tr, rng, Const { value: Value::I32(7) }.into());
@@ -535,7 +537,9 @@ pub fn build_case(seed: u64, case: u64) -> Built {
     }
     let locals: Vec<(LocalId, ValType)> = slots.into_iter().map(|x| x.unwrap()).collect();
     let multi_ty = module.types.add(&[ValType::I32], &[ValType::I32]);
-    let env = Env { locals: locals.clone(), nparams, globals: globals.clone(), helper, multi_ty };
+    // the documented way to get a sequence type from a signature, in half of the cases
+    let multi_sty: InstrSeqType = if rng.chance(1, 2) { InstrSeqType::new(&mut module.types, &[ValType::I32], &[ValType::I32]) } else { multi_ty.into() };
+    let env = Env { locals: locals.clone(), nparams, globals: globals.clone(), helper, multi_ty, multi_sty };
     let env_locals: Vec<(usize, ValType)> = locals.iter().enumerate().map(|(k, l)| (k, l.1)).collect();
     let mut budget = *rng.pick(&[4i64, 12, 30, 60]);
     let depth = rng.range(1, 6) as usize;
